@@ -570,6 +570,19 @@ theorem adm_below_liquidus {ph : Phys} (inp : Inputs ℝ) (kCN i : Nat) (hi : i 
     Adm (vtraj inp kCN i) :=
   adm_of_trajAdm inp kCN i hi st.dt_pos (C06.trajAdm_below_liquidus inp kCN hwf st hstat hT0 hT0hi hstart)
 
+/-- `adm_uncoupled` is not vacuous: its hypotheses hold for the concrete run with ice of
+`Lemmas/FlakeExRun.lean` (one vial, `k_int = 0`; `Stable`/`WF` from `C06.nonvacuous_run`), so the
+trajectory hypothesis of that run's vial is a theorem. -/
+theorem nonvacuous_adm_uncoupled : Adm (vtraj Snow.FlakeExRun.xInp 0 0) := by
+  open Snow.FlakeExRun in
+  have h := C06.nonvacuous_run
+  have h0 : xInp.oc.start ≤ xInp.T0 := by simp only [xInp]; norm_num
+  have h1 : xInp.T0 ≤ -1 := by simp only [xInp]; norm_num
+  have h2 : xInp.oc.start ≤ -1 := by simp [xInp]
+  have hk : xInp.p.kInt * xInp.p.A = 0 := by simp [xInp, xParams]
+  have hn : 0 < xInp.nVials := by simp [xInp]
+  exact adm_uncoupled (ph := xPhys) xInp 0 0 hn (-1) h.1 h.2.1 hk h0 h1 h2
+
 /-- the trajectory hypothesis as a condition on the vial's own stored row `X_sigma[i, :]` -/
 theorem hyp_adm_of_row (inp : Inputs ℝ) (kCN i : Nat) (h : StaysIce (sigmaRow inp kCN i)) :
     Adm (vtraj inp kCN i) := adm_of_row inp kCN i h
